@@ -56,7 +56,7 @@ def non_negative_integer(value):
         value = int(value)
         if value >= 0:
             return value
-    except (ValueError, TypeError):
+    except (ValueError, TypeError, OverflowError):
         pass
     raise RPCError(BAD_REQUEST,
                    f'{value} should be a non-negative integer')
